@@ -15,11 +15,15 @@ if r.returncode != 0:
 results = {}
 try:
     for c in checks:
+        # evidence/<id>.json must describe the unchanged tree: keep the committed file and put it back afterwards
+        ev = os.path.join(V, "evidence", f"{c}.json")
+        saved = open(ev).read() if os.path.exists(ev) else None
         p = subprocess.run([os.path.join(V, "check"), c], capture_output=True, text=True, cwd=V)
         viol = [l for l in p.stdout.splitlines() if l.startswith("VIOLATION")]
         sig = [l for l in p.stdout.splitlines() if l.startswith("--- ")]
         results[c] = {"exit": p.returncode, "violation": viol[:1], "signature": sig[:1]}
         print(name, c, "exit", p.returncode, (sig[:1] or [""])[0][:150])
+        if saved is not None: open(ev, "w").write(saved)
 finally:
     subprocess.run(["git", "-C", "/repo", "checkout", "--", "."])
 res_path = os.path.join(d, "result.json")
